@@ -23,6 +23,7 @@ type c03Params struct {
 	Yields  int      // scheduling points inside each handler between enter and exit
 	SleepMs int      // virtual sleep inside handlers (handler "duration")
 	ChanCap int      // 0 = the real queue capacity (32); 2 = capacity-scaled queues, so that a handful of lines is a backlog
+	EOL     string   // "" = every line ends in CR LF | "lf" = bare LF | "mixed" = alternating, with empty lines in between
 }
 
 func (p c03Params) name() string {
@@ -33,6 +34,9 @@ func (p c03Params) name() string {
 	n := fmt.Sprintf("order/verbs=%s/end=%s/cuts=%v/segs=%s/long=%v/y=%d/sl=%d", v, p.End, p.Cuts, p.Segs, p.LongLn, p.Yields, p.SleepMs)
 	if p.ChanCap != 0 {
 		n += fmt.Sprintf("/cap=%d", p.ChanCap)
+	}
+	if p.EOL != "" {
+		n += "/eol=" + p.EOL
 	}
 	return n
 }
@@ -69,6 +73,7 @@ func c03Scenario(p c03Params) *explore.Scenario {
 		Opt:    vx.Options{MaxSteps: 40000 + 4000*len(p.Verbs), Horizon: time.Minute + time.Duration(p.SleepMs*(len(p.Verbs)+2)*8)*time.Millisecond, ChanCap: p.ChanCap},
 	}
 	sc.Params["chancap"] = p.ChanCap
+	sc.Params["eol"] = p.EOL
 	sc.Params["sleep_ms"] = p.SleepMs
 	sc.Main = func(env *vx.Env) {
 		c := NewClient("me", nil)
@@ -118,13 +123,27 @@ func c03Scenario(p c03Params) *explore.Scenario {
 		if err := c.ConnectContext(ctx); err != nil {
 			return
 		}
+		eol := func(i int) string {
+			switch p.EOL {
+			case "lf":
+				return "\n"
+			case "mixed":
+				// an empty line (which the client skips) after every second line
+				return []string{"\r\n", "\n\r\n", "\n", "\r\n\n"}[i%4]
+			}
+			return "\r\n"
+		}
 		srv := env.Go("server", func() {
 			if p.Segs == "each" {
-				for _, l := range lines {
-					vc.Send(l + "\r\n")
+				for i, l := range lines {
+					vc.Send(l + eol(i))
 				}
 			} else {
-				vc.Send(strings.Join(lines, "\r\n") + "\r\n")
+				var sb strings.Builder
+				for i, l := range lines {
+					sb.WriteString(l + eol(i))
+				}
+				vc.Send(sb.String())
 			}
 			switch p.End {
 			case "quiet-eof":
@@ -317,7 +336,7 @@ func c03Oracle(p c03Params, ev []string) []explore.Finding {
 func init() {
 	Register(&Prop{
 		ID:   "C03",
-		Rule: "every execution, within the deviation budgets (K scheduling deviations incl. select-case choices, E read-cut deviations = partitions of the byte stream), of sessions of 3-4 numbered lines over verbs {PRIVMSG,NOTICE,001,PING,FOO} with 1-2 foreground handlers per verb, a background handler, handler bodies with 0-2 scheduling points or a virtual sleep, plus backlog sessions: 45 lines in one segment with 5 ms handlers (more than the 32-slot receive queue holds) and 7 lines over capacity-scaled queues (2 slots); scenario A ends after quiescence, scenario B's EOF/Close/cancel races with delivery; distinct = distinct canonical observation (enter/exit log + transcript)",
+		Rule: "every execution, within the deviation budgets (K scheduling deviations incl. select-case choices, E read-cut deviations = partitions of the byte stream), of sessions of 3-4 numbered lines over verbs {PRIVMSG,NOTICE,001,PING,FOO} with 1-2 foreground handlers per verb, a background handler, handler bodies with 0-2 scheduling points or a virtual sleep, lines ending in CR LF, bare LF or a mixture with empty lines in between, plus backlog sessions: 45 lines in one segment with 5 ms handlers (more than the 32-slot receive queue holds) and 7 lines over capacity-scaled queues (2 slots); scenario A ends after quiescence, scenario B's EOF/Close/cancel races with delivery; distinct = distinct canonical observation (enter/exit log + transcript)",
 		Assumptions: []string{
 			"interleavings at synchronisation/channel/socket/timer granularity (DESIGN.md 3.8); 'all handler durations' and GOMAXPROCS 1..16 are subsumed by the interleaving space for data-race-free code",
 			"ordering oracles are stated on the single observation log 'ev', whose records are mutually dependent events",
@@ -370,6 +389,12 @@ func init() {
 			for _, end := range []string{"quiet-eof", "eof", "close"} {
 				for _, sl := range []int{0, 5} {
 					jobs = append(jobs, ExploreJob("C03", ExploreSpec{Sc: c03Scenario(c03Params{Verbs: six, End: end, Segs: "one", SleepMs: sl, Yields: 1, ChanCap: 2}), Variants: []int{1, 2, 3}, Budgets: budgets, Cache: true}, 60))
+				}
+			}
+			// line endings: bare LF, and a mixture with empty lines in between
+			for _, eol := range []string{"lf", "mixed"} {
+				for _, segs := range []string{"one", "each"} {
+					jobs = append(jobs, ExploreJob("C03", ExploreSpec{Sc: c03Scenario(c03Params{Verbs: patterns[0], End: "quiet-eof", Segs: segs, EOL: eol, Cuts: true}), Variants: []int{1, 3}, Budgets: []explore.Budget{{0, 0}, {1, 0}, {0, 1}, {1, 1}}, Cache: true}, 20))
 				}
 			}
 			// handlers that take five virtual minutes each (longer than any timeout the library knows)
